@@ -20,7 +20,6 @@ import (
 	"time"
 
 	"honnef.co/go/tools/go/ir"
-	"honnef.co/go/tools/go/ir/irutil"
 	"honnef.co/go/tools/internal/verifharness/batch"
 	"honnef.co/go/tools/internal/verifharness/genmod"
 	"honnef.co/go/tools/internal/verifsim"
@@ -211,13 +210,73 @@ func dumpAll(prog *ir.Program) map[string][]string {
 			visit(a)
 		}
 	}
-	for fn := range irutil.AllFunctions(prog) {
+	for fn := range allFunctions(prog) {
 		visit(fn)
 	}
 	for _, l := range out {
 		sort.Strings(l)
 	}
 	return out
+}
+
+// allFunctions enumerates every function of the program: all package-level
+// functions, the implementation (MethodValue) of every method of every
+// non-generic named type declared in a created package and of its pointer
+// type, and everything reachable from those through operands.
+//
+// irutil.AllFunctions is deliberately not used: it adds the methods of
+// Program.RuntimeTypes(), and RuntimeTypes is not a function of the program:
+// when an alias (type WA = Wrap) and its target are both converted to
+// interfaces, typesinternal.ForEachElement explores the target's structure
+// only if the target happens to come first in the iteration over a map (the
+// alias marks the identical target as seen before descending into it), so two
+// calls on one finished program can return 13 and 18 types. That is outside
+// the four claimed properties (nothing in the linter uses RuntimeTypes) and is
+// recorded in DESIGN.md as an observation.
+func allFunctions(prog *ir.Program) map[*ir.Function]bool {
+	seen := map[*ir.Function]bool{}
+	var visit func(fn *ir.Function)
+	visit = func(fn *ir.Function) {
+		if fn == nil || seen[fn] {
+			return
+		}
+		seen[fn] = true
+		var buf [10]*ir.Value
+		for _, b := range fn.Blocks {
+			for _, instr := range b.Instrs {
+				for _, op := range instr.Operands(buf[:0]) {
+					if f, ok := (*op).(*ir.Function); ok {
+						visit(f)
+					}
+				}
+			}
+		}
+		for _, a := range fn.AnonFuncs {
+			visit(a)
+		}
+	}
+	pkgs := prog.AllPackages()
+	sort.Slice(pkgs, func(i, j int) bool { return pkgs[i].Pkg.Path() < pkgs[j].Pkg.Path() })
+	for _, pkg := range pkgs {
+		for _, name := range sortedKeys(pkg.Members) {
+			switch mem := pkg.Members[name].(type) {
+			case *ir.Function:
+				visit(mem)
+			case *ir.Type:
+				named, ok := mem.Type().(*types.Named)
+				if !ok || named.TypeParams() != nil || types.IsInterface(named) {
+					continue
+				}
+				for _, T := range []types.Type{named, types.NewPointer(named)} {
+					ms := prog.MethodSets.MethodSet(T)
+					for i := 0; i < ms.Len(); i++ {
+						visit(prog.MethodValue(ms.At(i)))
+					}
+				}
+			}
+		}
+	}
+	return seen
 }
 
 // duplicates checks the absolute half of "created exactly once": generic
@@ -547,7 +606,7 @@ func execute(c Case, tapes *[][]uint32) batch.Result {
 				handed := map[string]*ir.Function{}
 				for _, name := range chk.order[2:] {
 					tp := chk.pkgs[name]
-					for _, tn := range []string{"Wrap", "PWrap", "Deep", "IW", "Mix", "WA"} {
+					for _, tn := range []string{"Wrap", "PWrap", "Deep", "IW", "Mix", "WA", "BoxE", "PairB"} {
 						obj := tp.Scope().Lookup(tn)
 						if obj == nil {
 							continue
